@@ -13,8 +13,13 @@ import numpy as np
 
 import common as C
 import fuzzylite as fl
+import user_terms as U
 from streams import corpus_cases
 from streams.infer import KINDS, mk_class_term
+
+# the same kinds with the classes a user of the library wrote (fv/user_terms.py) next to the built-in ones
+KINDS_USER = {"sugeno": KINDS["sugeno"] + U.SUGENO * 2, "monotonic": KINDS["monotonic"] + U.MONOTONIC * 3,
+              "other": KINDS["other"] + U.NON_MONOTONIC * 7}
 
 CONFIGURE = "configure"
 TREE = "infer-tree"
@@ -155,26 +160,34 @@ def run_configure(ctx):
 
 # ------------------------------------------------------------------------------------------------ infer_type on trees
 
-def gen_tree(rng, depth, mode):
+def gen_tree(rng, depth, mode, kinds=KINDS):
     """["p", Class] | ["a", tree] | ["g", "aggregated" | "variable", [tree…]]"""
     r = rng.random()
     if depth == 0 or r < 0.35:
-        kind = mode if mode in KINDS else rng.choice(list(KINDS))
-        return ["p", rng.choice(KINDS[kind])]
+        kind = mode if mode in kinds else rng.choice(list(kinds))
+        return ["p", rng.choice(kinds[kind])]
     if r < 0.65:
-        return ["a", gen_tree(rng, depth - 1, mode)]
-    return ["g", rng.choice(["aggregated", "variable"]), [gen_tree(rng, depth - 1, mode) for _ in range(rng.choice([0, 1, 2, 2, 3]))]]
+        return ["a", gen_tree(rng, depth - 1, mode, kinds)]
+    return ["g", rng.choice(["aggregated", "variable"]), [gen_tree(rng, depth - 1, mode, kinds) for _ in range(rng.choice([0, 1, 2, 2, 3]))]]
 
 
-def gen_tree_case(rng):
+def gen_tree_case(rng, kinds=KINDS):
     mode = rng.choice(["sugeno", "monotonic", "other", "mixed", "mixed"])
-    t = gen_tree(rng, rng.choice([1, 2, 3, 4]), mode)
+    t = gen_tree(rng, rng.choice([1, 2, 3, 4]), mode, kinds)
     if t[0] == "p" and rng.random() < 0.7:
-        t = ["g", "aggregated", [["a", t], ["a", gen_tree(rng, 1, mode)]]]
+        t = ["g", "aggregated", [["a", t], ["a", gen_tree(rng, 1, mode, kinds)]]]
     return {"stream": TREE, "tree": t}
 
 
+def tree_cases(ctx):
+    """components whose leaves are also of classes written by a user: the kind follows from what the term says about itself"""
+    for _ in range(ctx.scale(200, 2000)):
+        yield gen_tree_case(ctx.rng, KINDS_USER)
+
+
 def build_tree(t, engine):
+    if t[0] == "p" and t[1] in U.CLASSES:
+        return U.CLASSES[t[1]]("t")
     if t[0] == "p":
         return mk_class_term(t[1], "t", engine)
     if t[0] == "a":
@@ -187,7 +200,7 @@ def build_tree(t, engine):
 
 def tree_sx(t):
     if t[0] == "p":
-        return ["p", t[1]]
+        return ["p", U.model_name(t[1])]
     if t[0] == "a":
         return ["a", tree_sx(t[1])]
     return ["g"] + [tree_sx(x) for x in t[2]]
@@ -207,10 +220,17 @@ def size(t):
     return 1 if t[0] == "p" else 1 + size(t[1]) if t[0] == "a" else 1 + sum(size(x) for x in t[2])
 
 
-def run_tree(ctx):
+def run_tree(ctx, more=None):
+    """`more(ctx) -> (lines, judge)`: further model lines of the property, drawn after this stream's cases and sent to the
+    driver in the same launch; `judge(outs)` receives their answers"""
     st = ctx.stats
     cases = corpus_cases("C10", TREE) + [gen_tree_case(ctx.rng) for _ in range(ctx.scale(300, 3000))]
-    outs = ctx.driver.eval([C.sx(["infer-tree", tree_sx(c["tree"])]) for c in cases])
+    cases += list(tree_cases(ctx))
+    more_lines, judge = more(ctx) if more else ([], None)
+    outs = ctx.driver.eval([C.sx(["infer-tree", tree_sx(c["tree"])]) for c in cases] + more_lines)
+    if judge:
+        judge(outs[len(cases):])
+    outs = outs[:len(cases)]
     mism = []
     for case, line in zip(cases, outs):
         st.count(f"{TREE}:cases")
@@ -225,7 +245,31 @@ def run_tree(ctx):
     return mism
 
 
+def documented_kind(t):
+    """the docstrings of WeightedDefuzzifier.Type / infer_type: Constant, Linear and Function terms are Takagi-Sugeno,
+    monotonic terms are Tsukamoto, the others Automatic; an Activated term is of the kind of its term; a composite
+    (Aggregated, Variable) is of the one kind of its parts, Automatic when it has none, a TypeError when they differ"""
+    if t[0] == "p":
+        if t[1] in KINDS["sugeno"] or t[1] in U.SUGENO:
+            return "TakagiSugeno"
+        return "Tsukamoto" if (t[1] in KINDS["monotonic"] or t[1] in U.MONOTONIC) else "Automatic"
+    if t[0] == "a":
+        return documented_kind(t[1])
+    kinds = []
+    for x in t[2]:
+        k = documented_kind(x)
+        if isinstance(k, list):
+            return k                           # the TypeError of a part reaches the caller
+        kinds.append(k)
+    if len(set(kinds)) > 1:
+        return ["err", "internal"]
+    return kinds[0] if kinds else "Automatic"
+
+
 def oracle(case):
     if case.get("stream") == CONFIGURE:
         return oracle_configure(case)
-    return True, "no documented value: judged by the model comparison only"
+    got, want = observe_tree(case), documented_kind(case["tree"])
+    if got != want:
+        return False, f"WeightedDefuzzifier.infer_type on {case['tree']}: {got}, documented: {want}"
+    return True, "ok"
